@@ -714,6 +714,12 @@ def install_env_stubs(eng):
         a = simp(args[1])
         name = e.read_cstr(st, a.as_long()) if is_conc(a) else None
         st.events.append(("dlsym", simp(args[0]), name))
+        # two libraries exporting the same name: the kernel TU defines <name>__lib<n> for the n-th dlopen'ed library
+        h = simp(args[0])
+        if name is not None and is_conc(h):
+            alt = "%s__lib%d" % (name, (h.as_long() - 0x7E0000000000) // 0x100)
+            if alt in e.m.funcs:
+                return [(st, BV(e.faddr[alt], 64))]
         if name in e.m.funcs:
             return [(st, BV(e.faddr[name], 64))]
         return [(st, BV(0, 64))]
